@@ -17,6 +17,6 @@ PROP = dict(
                  "the fresh-fragment oracle loads the stored bits with bulkImport into a new cache-less fragment"],
     tags=["gfrag"],
     units=[
-        U("blocks", ".", "^TestVerifC10_Blocks$", 1000, 12000, sq=6, sth=14, timeout={"quick": 240, "thorough": 1500}),
+        U("blocks", ".", "^TestVerifC10_Blocks$", 1000, 12000, sq=6, sth=14, timeout={"quick": 900, "thorough": 2400}),
     ],
 )
